@@ -124,6 +124,16 @@ fn base_lattice() -> Vec<Cfg> {
             }
         }
     }
+    // extreme decimation: the step between output frames is longer than the filter
+    for (l, r) in [(8usize, 1.0 / 16.0), (8, 1.0 / 40.0), (64, 500.0 / 48000.0)] {
+        for chunk in [64usize, 1024] {
+            for kind in [Kind::SI, Kind::SO] {
+                let mut c = Cfg::sinc(kind, r, 1.0, chunk, l, 128, Interp::Cubic, Kernel::Dispatch);
+                c.f_cutoff = 0.9;
+                v.push(c);
+            }
+        }
+    }
     let pairs: Vec<(usize, usize)> = if q {
         vec![(44100, 48000), (3, 2), (48000, 8000)]
     } else {
@@ -282,6 +292,10 @@ impl Check for C14 {
         if cfg.chunk > 1 {
             let b = ((base / cfg.chunk) + 2) * cfg.chunk;
             positions.extend([b - 1, b, b + 1]);
+        }
+        if scale >= 16 && cfg.kind.is_sinc() {
+            // a late event: hundreds of calls into the stream
+            positions.push(base + 4000 * scale);
         }
         if tier == Tier::Thorough {
             positions.extend([base + 2, base + 3, base + 5, base + 11, base + 137 * scale, base + 1501 * scale]);
